@@ -307,13 +307,15 @@ Lemma spec_step_ext : forall ord m1 m2 o, smap_eq m1 m2 ->
   snd (spec_step ord m1 o) = snd (spec_step ord m2 o) /\
   smap_eq (fst (spec_step ord m1 o)) (fst (spec_step ord m2 o)).
 Proof.
-  intros ord m1 m2 o H. destruct o as [k v|k v|adds dels| |]; simpl.
+  intros ord m1 m2 o H. destruct o as [k v|k v|adds dels| | | |c]; simpl.
   - split; [reflexivity|]. intro k'. unfold m_add, m_set. rewrite !H. reflexivity.
   - unfold m_del. rewrite <- H. destruct (remove_first v (m1 k)); simpl.
     + split; [reflexivity|]. intro k'. unfold m_set. rewrite H. reflexivity.
     + split; [reflexivity | assumption].
   - pose proof (m_batch_ext m1 m2 (ord adds) dels H) as P.
     destruct (m_batch m1 (ord adds) dels), (m_batch m2 (ord adds) dels); simpl; try contradiction; split; auto.
+  - split; [reflexivity | assumption].
+  - split; [reflexivity | assumption].
   - split; [reflexivity | assumption].
   - split; [reflexivity | assumption].
 Qed.
